@@ -74,6 +74,17 @@ func c06Gen(c *Ctx) {
 			c06Try(t, "code-point-taken-for-lone-byte", &tc)
 		})
 	}
+	// 0. one covered region of every length 2..560 runes (block-wise writers of the mask: multiples of 128, 170, 256, 512),
+	//    masks of 1, 2, 3 and 4 bytes and an invalid one
+	c.Each(559, func(i int, t *T) {
+		n := 2 + i
+		text := "x" + strings.Repeat("a", n) + "y"
+		if i%5 == 4 {
+			text = strings.Repeat("é", 3) + strings.Repeat("ab", n/2) + "zz"
+		}
+		tc := &trieCase{ops: opsOf([]string{"aa", "ab", "a"}), text: []byte(text), repl: []byte("<>"), mask: []int64{'é', '中', 0x1F600, '*', -1, 0xFF0A}[i%6]}
+		c06Try(t, "one-long-covered-region", tc)
+	})
 	// 1. exhaustive: hand-written sets over {a,b,c} x all texts up to length L, replacement "*" / mask '*' and a
 	//    second replacement drawn per case
 	L := c.N(6, 8)
@@ -246,7 +257,7 @@ func c06Gen(c *Ctx) {
 
 func init() {
 	Register(&Prop{ID: "C06", Pure: true, Num: 6, NumOf: wideNum(6), SpecMode: "rel", Gen: c06Gen, Impl: c06Impl,
-		Shrink:   trieShrink(true),
+		Shrink: trieShrink(true),
 		Describe: func(in []int64) string {
 			if len(in) > 3 && (in[0] == -5 || in[0] == -6) {
 				return fmt.Sprintf("wide trie: all %d-rune patterns over the %d runes from U+%X; text runes, replacement, mask: %v", in[3], in[2], in[1], in[4:])
